@@ -288,30 +288,35 @@ def main():
            "spec_diff": 0, "kind_diff": 0, "pyref_checked": 0, "pyref_diff": 0, "spec_incoherent": 0}
     nontrivial, concrete, soft, samples = set(), [], [], []
     n_reg, cov_summary, iso_checked = 0, {"available": False}, 0
-    if have_oracle:
-        o = C.Oracle(I.AREA)
-        n_reg = regressions(o, verdict)
-        iso_checked, iso_bad = datetime_isoformat_sanity(o, 2000 if tier == "quick" else 20000, C.rng("C07/isofmt"))
-        o.close()
-        for b in iso_bad[:3]:
-            soft.append(dict(b, kind="spec sanity: render_iso differs from datetime.isoformat()", input=None))
-        if tier == "quick":
-            nproc, jobs = 4, [("q%d" % i, 5000) for i in range(8)]
-        else:
-            nproc, jobs = 12, [("t%d" % i, 25000) for i in range(60)]
-        # one small shard under coverage.py (in-process), the rest in the pool
-        first, cov_summary = I.measure_anchor_coverage(lambda: job(("cov", 1500)))
-        results = [first] + I.run_pool(job, [("boundary", 0)] + jobs, nproc)
-        for res in results:
-            for k in ("evals", "draws", "in_domain", "model_diff", "spec_diff", "kind_diff", "pyref_checked",
-                      "pyref_diff", "spec_incoherent"):
-                tot[k] += res[k]
-            for k in ("hist", "kinds", "entries"):
-                I.merge_hist(tot[k], res[k])
-            nontrivial |= res["nontrivial"]
-            concrete += res["concrete"]
-            soft += res["soft"]
-            samples += res["samples"]
+    try:
+      if have_oracle:
+          o = C.Oracle(I.AREA)
+          n_reg = regressions(o, verdict)
+          iso_checked, iso_bad = datetime_isoformat_sanity(o, 2000 if tier == "quick" else 20000, C.rng("C07/isofmt"))
+          o.close()
+          for b in iso_bad[:3]:
+              soft.append(dict(b, kind="spec sanity: render_iso differs from datetime.isoformat()", input=None))
+          if tier == "quick":
+              nproc, jobs = 4, [("q%d" % i, 5000) for i in range(8)]
+          else:
+              nproc, jobs = 12, [("t%d" % i, 25000) for i in range(60)]
+          # one small shard under coverage.py (in-process), the rest in the pool
+          first, cov_summary = I.measure_anchor_coverage(lambda: job(("cov", 1500)))
+          results = [first] + I.run_pool(job, [("boundary", 0)] + jobs, nproc)
+          for res in results:
+              for k in ("evals", "draws", "in_domain", "model_diff", "spec_diff", "kind_diff", "pyref_checked",
+                        "pyref_diff", "spec_incoherent"):
+                  tot[k] += res[k]
+              for k in ("hist", "kinds", "entries"):
+                  I.merge_hist(tot[k], res[k])
+              nontrivial |= res["nontrivial"]
+              concrete += res["concrete"]
+              soft += res["soft"]
+              samples += res["samples"]
+    except Exception as ex:      # oracle / pool failure: the property is not shown to hold in this run
+        import traceback
+        soft.append({"kind": "machinery failure during the correspondence run: %r" % (ex,), "input": None,
+                     "traceback": traceback.format_exc()[-2000:]})
     concrete.sort(key=lambda p: len(p["input"]["codes"]))
     for p in concrete[:5]:
         verdict.violation(p, concrete=True)
